@@ -10,7 +10,7 @@ const GET_HDR: &[u8] = b"*2\r\n$3\r\nGET\r\n";
 const GET_HDR_LC: &[u8] = b"*2\r\n$3\r\nget\r\n";
 const SET_HDR: &[u8] = b"*3\r\n$3\r\nSET\r\n";
 
-fn put(b: &mut [u8; MAXB], n: &mut usize, src: &[u8]) { b[*n..*n + src.len()].copy_from_slice(src); *n += src.len(); }
+fn put(b: &mut [u8; MAXB], n: &mut usize, src: &[u8]) { super::util::put_const(b, *n, src); *n += src.len(); }
 fn put_sym(b: &mut [u8; MAXB], n: &mut usize, k: usize) { let mut i = 0; while i < k { b[*n] = vs::u8(); *n += 1; i += 1; } }
 fn eq(a: &[u8], b: &[u8]) -> bool { if a.len() != b.len() { return false; } let mut i = 0; while i < a.len() { if a[i] != b[i] { return false; } i += 1; } true }
 
